@@ -22,6 +22,10 @@ const (
 
 // Program is the loaded, type-checked module under analysis.
 type Program struct {
+	closureDecls map[*ast.FuncLit]*ast.FuncDecl
+	closureFuncs map[*ast.FuncLit]*types.Func
+	walkChecked bool
+	walkWhy     string
 	entryClasses map[string][]bool
 	entryBacked  map[string]bool
 	constTables map[*types.Var][]*ast.KeyValueExpr
